@@ -591,15 +591,41 @@ func genMercDirected(g *G) {
 func genMercHistories(g *G) {
 	for i := 0; i < g.N(500, 8000); i++ {
 		s := mercRandScn(g, 1+i%4)
-		// keep most histories productive: price inside the range, moderate window
+		prev := s.randPrev(g)
+		// keep most histories productive: price inside the range, a window that fits, a readable
+		// previous report (or none) a little behind the honest clock
 		if g.R.Intn(4) != 0 {
 			s.min, s.max = big.NewInt(1), mercBig("1000000000000000000000000000000")
 			s.P = big.NewInt(int64(1000 + g.R.Intn(100000)))
+			if s.T > mercMaxU32-200000 {
+				s.window = big.NewInt(0)
+			} else {
+				s.window = big.NewInt(int64(g.R.Intn(100000)))
+			}
+			if s.T < 100 {
+				s.T = 100 + uint32(g.R.Intn(1000))
+			}
+			if s.T > mercMaxU32-40 {
+				s.T = mercMaxU32 - 40 + uint32(g.R.Intn(20))
+			}
+			if s.v == 1 {
+				s.mft = s.top - int64(1+g.R.Intn(15))
+				switch g.R.Intn(3) {
+				case 0:
+					prev = nil
+				default:
+					prev = hexs(mercRefPrevBlock(s.top - int64(1+g.R.Intn(6))))
+				}
+			} else {
+				s.mft = int64(s.T) - int64(1+g.R.Intn(50))
+				switch g.R.Intn(3) {
+				case 0:
+					prev = nil
+				default:
+					prev = hexs(mercRefPrevTs(s.T - uint32(1+g.R.Intn(6))))
+				}
+			}
 		}
-		if g.R.Intn(6) != 0 && s.T > mercMaxU32-100 {
-			s.window = big.NewInt(0)
-		}
-		prev := s.randPrev(g)
 		rounds := []any{}
 		labels := []any{}
 		k := 3 + g.R.Intn(6)
@@ -645,6 +671,24 @@ func genMercHistories(g *G) {
 			}
 			g.Emit(J{"op": "mercury.history", "v": v, "cfg": s.cfg(), "codec": s.codec, "prev": nil, "rounds": rounds, "honest": labels},
 				fmt.Sprintf("v%d", v), "history", "uint32-boundary")
+		}
+	}
+	// K5 (repaired, commit 489eb6c): f+1 observers agree on maxFinalizedTimestamp = MaxInt64 in the
+	// bootstrap round.  The int64 addition used to wrap and the report started at validFrom 0; the
+	// plugin must return an error.  The monitor reports a regression as C09/bootstrap-int64-wrap.
+	for v := 2; v <= 4; v++ {
+		for _, m := range []int64{mercMaxI64, mercMaxI64 - 1, int64(mercMaxU32), int64(mercMaxU32) - 1} {
+			s := mercBase(g, v)
+			s.mft = m
+			s.T, s.window = mercMaxU32, big.NewInt(0)
+			var rounds, labels []any
+			for r := 0; r < 2; r++ {
+				aos, hidx := s.round(g)
+				rounds = append(rounds, aos)
+				labels = append(labels, hidx)
+			}
+			g.Emit(J{"op": "mercury.history", "v": v, "cfg": s.cfg(), "codec": s.codec, "prev": nil, "rounds": rounds, "honest": labels},
+				fmt.Sprintf("v%d", v), "history", "K5-bootstrap-maxint64")
 		}
 	}
 	// directed v1: chain advancing one block per round, stalling, bootstrap from -1
